@@ -51,6 +51,17 @@ SETS = {
     },
 }  # type: typing.Dict[str, typing.Dict[str, str]]
 
+# the documented type_to_include_path filter, applied to the type itself and to every composite of the same root namespace
+# it refers to (C11: total path lookup; the same relative path whether a type is generated or merely referenced)
+SETS["paths"] = {
+    "Any.j2": "SELF {{ T | type_to_include_path }}\n"
+    "{% for a in T.attributes %}{% set dt = a.data_type.element_type if a.data_type is ArrayType else a.data_type %}"
+    "{% if dt is CompositeType and not dt.has_parent_service and dt.root_namespace == T.root_namespace %}REF {{ dt | type_to_include_path }}\n{% endif %}"
+    "{% endfor %}",
+    "ServiceType.j2": "SELF {{ T | type_to_include_path }}\n",
+    "Namespace.j2": _NS,
+}
+
 SUPPORT_NAME = {"c": "serialization.j2", "cpp": "serialization.j2", "py": "nunavut_support.j2"}
 
 SUPPORT_SETS = {
